@@ -156,9 +156,13 @@ def run(module, cfg, tag, workers=16, simulate=None, depth=None, seed=None, env=
     return r
 
 
+TLAPS_STDLIB = "/opt/veriftools/tlapm/lib/tlapm/stdlib"      # TLAPS.tla, for the proof modules (checked by tlapm in C20 / G01)
+
+
 def sany(module, spec_dir=None):
     spec_dir = spec_dir or SPECS
-    cmd = ["java", "-DTLA-Library=" + LIB, "-cp", JAR + ":" + DEPS, "tla2sany.SANY",
+    lib = LIB + (os.pathsep + TLAPS_STDLIB if os.path.isdir(TLAPS_STDLIB) else "")
+    cmd = ["java", "-DTLA-Library=" + lib, "-cp", JAR + ":" + DEPS, "tla2sany.SANY",
            os.path.join(spec_dir, module + ".tla")]
     p = subprocess.run(cmd, cwd=spec_dir, stdout=subprocess.PIPE, stderr=subprocess.STDOUT, text=True)
     ok = p.returncode == 0 and "Semantic errors" not in p.stdout and "***Parse Error***" not in p.stdout \
